@@ -106,6 +106,9 @@ func Discharge(o *Obligation, timeoutS int, allSolvers bool) *Result {
 			r.Status = "failed"
 			if ans == "sat" {
 				r.Model = parseModel(o, out)
+				if m := smallModel(o, s, q); m != nil {
+					r.Model = m
+				}
 			}
 			return r
 		}
@@ -234,4 +237,38 @@ func DumpQuery(o *Obligation, dir string) string {
 	p := filepath.Join(dir, sanitize(o.Name)+".smt2")
 	os.WriteFile(p, []byte(o.Query(Prelude)), 0o644)
 	return p
+}
+
+// smallModel asks the solver again for a counterexample whose slices and strings are short, so that the
+// probed elements describe the whole pre-state and the replay on the real code is faithful.
+func smallModel(o *Obligation, s SolverCfg, q string) map[string]string {
+	var extra []string
+	for _, p := range o.Probes {
+		switch {
+		case strings.HasSuffix(p.Label, ".len"):
+			extra = append(extra, "(assert (<= "+p.T+" 24))")
+		case strings.HasSuffix(p.Label, ".cap"):
+			extra = append(extra, "(assert (<= "+p.T+" 32))")
+		}
+	}
+	if len(extra) == 0 {
+		return nil
+	}
+	k := strings.LastIndex(q, "(check-sat)")
+	if k < 0 {
+		return nil
+	}
+	q2 := q[:k] + strings.Join(extra, "\n") + "\n" + q[k:]
+	f, err := os.CreateTemp(WorkDir, "m*.smt2")
+	if err != nil {
+		return nil
+	}
+	f.WriteString(q2)
+	f.Close()
+	defer os.Remove(f.Name())
+	ans, out, _ := runSolver(s, 5, f.Name())
+	if ans != "sat" {
+		return nil
+	}
+	return parseModel(o, out)
 }
